@@ -18,6 +18,25 @@ FUNC_TYPES = set(CAP)
 INF = 99
 
 
+def fval(b, v):
+    """numeric value of a constant operand: a literal, or a NAMED constant of the crate resolved through the constant
+    table of the facts (`const MINUS_ONE: f64 = -1.0` used as `crate::macros::MINUS_ONE`), also through one level of
+    `const A: f64 = B;`"""
+    x = T.f64_const(v)
+    if x is not None: return x
+    F = getattr(b, 'facts', None)
+    consts = getattr(F, 'consts', None) or getattr(getattr(F, 'raw', None), 'consts', None) or {}
+    key = v.strip()
+    if key.startswith('const '): key = key[6:]
+    for _ in range(3):
+        hit = consts.get(key) or next((cv for k, cv in consts.items() if k.endswith('::' + key) or key.endswith('::' + k)), None)
+        if hit is None: return None
+        x = T.f64_const(hit[1])
+        if x is not None: return x
+        key = hit[1].strip()
+    return None
+
+
 def norm_ty(t):
     return re.sub(r"&'\w+ ", '&', t)
 
@@ -130,7 +149,7 @@ def negated(ctx, b, e, p):
             if k == 'Mul':
                 for c, o in ((a0, a1), (a1, a0)):
                     c = T.strip_wrappers(c)
-                    if c[0] == 'const' and T.f64_const(c[1]) == -1.0 and p in expr_params(ctx, b, o): return True
+                    if c[0] == 'const' and fval(b, c[1]) == -1.0 and p in expr_params(ctx, b, o): return True
             elif p in expr_params(ctx, b, a1) and p not in expr_params(ctx, b, a0): return True
     return False
 
@@ -163,7 +182,7 @@ def conversion_problems(ctx, fb, adt):
         while t[0] == 'call' and t[1] in ('into', 'from') and len(t[3]) == 1 and t[3][0][0] == 'call': t = t[3][0]
         ok = False
         if t[0] == 'call' and t[1] == 'from' and re.search(r'From<u64> for v1::Linear', t[2]) and is_id(t[3][0]): ok = True
-        elif t[0] == 'call' and t[1] == 'single_term' and len(t[3]) == 2 and is_id(t[3][0]) and t[3][1][0] == 'const' and T.f64_const(t[3][1][1]) == 1.0: ok = True
+        elif t[0] == 'call' and t[1] == 'single_term' and len(t[3]) == 2 and is_id(t[3][0]) and t[3][1][0] == 'const' and fval(fb, t[3][1][1]) == 1.0: ok = True
         elif t[0] == 'call' and t[1] == 'from' and re.search(r"From<&('\w+ )?%s> for v1::Linear" % re.escape(adt), t[2]) and is_operand(t[3][0]): ok = True
         if not ok: probs.append('a path returns %s' % T.expr_str(e, 3))
     rs = ctx.S.backslice(fb, [0], depth=0)
@@ -215,7 +234,7 @@ def deleg_rules(ctx, impls):
                     ctx.undecided(rid, 'T-DELEG', b.site(), 'hand-written body in place of a delegation: decided by the kernel rules of C02.branches'); continue
                 rs0 = ctx.S.backslice(b, [0])
                 neg_ok = i['op'] not in ('Sub', 'Neg') or any(ops_kind(c.trait) in ('Sub', 'Neg') for c in opcalls) or \
-                    any(st['rv']['k'] == 'un' and st['rv']['op'] == 'Neg' or st['rv']['k'] == 'bin' and st['rv']['op'] == 'Sub' and st['rv'].get('ty') == 'f64' for bi, st in b.stmts()) or rs0.has_const(r'^-1f64$')
+                    any(st['rv']['k'] == 'un' and st['rv']['op'] == 'Neg' or st['rv']['k'] == 'bin' and st['rv']['op'] == 'Sub' and st['rv'].get('ty') == 'f64' for bi, st in b.stmts()) or any(fval(b, cv) == -1.0 for cv in rs0.consts)
                 if need <= rs0.params and neg_ok:
                     weakly(ctx, rid, 'T-DELEG', b, 'hand-written body in place of a delegation, no kernel rule for this shape; the result depends on %s%s' % ('both operands' if len(need) == 2 else 'the operand', ' and a negation / subtraction is applied' if i['op'] in ('Sub', 'Neg') else '')); continue
                 decided += 1
@@ -254,7 +273,7 @@ def deleg_rules(ctx, impls):
         elif op == 'Neg':
             muls = [c for c in opcalls if c.trait.endswith('ops::Mul')]; negs = [c for c in opcalls if c.trait.endswith('ops::Neg')]
             if len(muls) == 1 and not negs:
-                cs = [T.f64_const(a['v']) for a in muls[0].args if a['k'] == 'const']
+                cs = [fval(b, a['v']) for a in muls[0].args if a['k'] == 'const']
                 if cs != [-1.0]: probs.append('Neg multiplies by %s, not by -1' % cs)
                 if 1 not in (ctx.S.slice_operand(b, muls[0].args[0]).params | ctx.S.slice_operand(b, muls[0].args[1]).params): probs.append('self is ignored')
             elif len(negs) == 1 and not muls:
@@ -278,7 +297,7 @@ def deleg_rules(ctx, impls):
     fb = ctx.F.one('v1::Linear', 'from', trait='From', targs=['u64'])
     if fb is not None:
         ex = [c for c in fb.calls if c.item == 'single_term']
-        ok = len(ex) == 1 and T.strip_wrappers(T.expr(fb, ex[0].args[0])) == ('place', 1, []) and ex[0].args[1].get('v') == '1f64'
+        ok = len(ex) == 1 and T.strip_wrappers(T.expr(fb, ex[0].args[0])) == ('place', 1, []) and (ex[0].args[1]['k'] == 'const' and fval(fb, ex[0].args[1]['v']) == 1.0)
         ctx.check(ok, 'C02.from/u64', 'T-CONST', fb.name, 'Linear::from(id) is not single_term(id, 1.0)', fb.site())
 
 
@@ -720,7 +739,7 @@ def _negligible_cmp(body, st):
     rv = st['rv']
     if rv['k'] != 'bin' or rv['op'] not in ('Le', 'Lt', 'Gt', 'Ge') or rv.get('ty') != 'f64': return 0
     a, c = rv['ops']
-    def eps(o): return o['k'] == 'const' and T.f64_const(o['v']) is not None and 0 < T.f64_const(o['v']) <= 1e-9
+    def eps(o): return o['k'] == 'const' and fval(body, o['v']) is not None and 0 < fval(body, o['v']) <= 1e-9
     def absv(o): return any(x[1] == 'abs' for x in T.expr_calls(T.expr(body, o)))
     if eps(c) and absv(a): return 1 if rv['op'] in ('Le', 'Lt') else -1
     if eps(a) and absv(c): return 1 if rv['op'] in ('Ge', 'Gt') else -1
@@ -1059,10 +1078,111 @@ def payload_sources(ctx, b, operand, depth=0):
     return out
 
 
+PASS_THROUGH = re.compile(r'::(expect|unwrap|unwrap_or_else|unwrap_unchecked|clone|cloned|copied|as_ref|as_mut|as_deref|borrow|deref|deref_mut|to_owned|take|into_inner)(::<.*>)?$')
+
+
+def dispatch_walk(b, op, vs, vr, discr_of):
+    """Execute the dispatch for ONE pair of kinds: self holds variant vs, rhs holds variant vr.  The body is walked from the
+    entry with the values that matter tracked concretely -- which operand an enum value / a payload belongs to, tuples of
+    them, small integers computed from the discriminants (a `kind_rank`), comparisons of those -- so every switch on the
+    kinds is resolved and exactly one path remains, whatever the shape of the match (one tuple match, nested matches,
+    operands ordered first, or-patterns).  Returns (verdict, detail, site bb):
+      'ok'      the path reaches the operator `op` (trait call, or the built-in f64 operator) applied to the payload of self
+                and the payload of rhs
+      'bad'     it reaches another operator / other operands first, returns without, or panics
+      None      a switch on something that is not tracked: undecided by this walk"""
+    UNK = ('?',)
+    env = {1: ('fn', 0), 2: ('fn', 1)}
+    case = {0: vs, 1: vr}
+
+    def place(pl):
+        v = env.get(pl['l'], UNK)
+        for pr in pl['p']:
+            if pr == '*': continue
+            if isinstance(pr, dict) and 'dc' in pr:
+                if v[0] == 'enum': v = ('variant', v[1], pr['dc'])
+                elif v[0] == 'optenum' and pr['dc'] == 'Some': v = ('somewrap', v[1])
+                else: v = UNK
+            elif isinstance(pr, dict) and 'f' in pr:
+                if v[0] == 'fn' and pr['f'] == 'function': v = ('optenum', v[1])
+                elif v[0] == 'tuple' and pr['f'].isdigit() and int(pr['f']) < len(v[1]): v = v[1][int(pr['f'])]
+                elif v[0] == 'variant': v = ('payload', v[1], v[2]) if case[v[1]] == v[2] else UNK
+                elif v[0] == 'somewrap': v = ('enum', v[1])
+                else: v = UNK
+            else: v = UNK
+        return v
+
+    def operand(o):
+        if o['k'] in ('copy', 'move'): return place(o['pl'])
+        if o['k'] == 'const':
+            m = re.match(r'^(?:const )?(-?\d+)_?[iu](?:8|16|32|64|128|size)$', o['v'].strip())
+            if m: return ('int', int(m.group(1)))
+            if o['v'].strip() in ('true', 'false'): return ('int', 1 if o['v'].strip() == 'true' else 0)
+        return UNK
+
+    CMP = {'Lt': lambda x, y: x < y, 'Le': lambda x, y: x <= y, 'Gt': lambda x, y: x > y, 'Ge': lambda x, y: x >= y, 'Eq': lambda x, y: x == y, 'Ne': lambda x, y: x != y}
+    bi = 0
+    for _ in range(4000):
+        blk = b.blocks[bi]
+        for st in blk['st']:
+            if 'dst' not in st: continue
+            rv = st['rv']; k = rv['k']; val = UNK
+            if k == 'use': val = operand(rv['ops'][0])
+            elif k == 'ref': val = place(rv['pl'])
+            elif k == 'agg' and rv['adt'] == 'tuple': val = ('tuple', [operand(o) for o in rv['ops']])
+            elif k == 'discr':
+                x = place(rv['pl'])
+                if x[0] == 'enum': val = ('int', discr_of[case[x[1]]])
+                elif x[0] == 'optenum': val = ('int', 1)                      # an operand of a defined kind: the oneof is set
+            elif k == 'bin':
+                a0, a1 = operand(rv['ops'][0]), operand(rv['ops'][1])
+                if a0[0] == a1[0] == 'int' and rv['op'] in CMP: val = ('int', 1 if CMP[rv['op']](a0[1], a1[1]) else 0)
+                elif rv.get('ty') == 'f64' and a0[0] == a1[0] == 'payload':
+                    sides = {a0[1], a1[1]}
+                    if rv['op'] == op and sides == {0, 1}: return 'ok', '', bi
+                    return 'bad', 'the arm computes %s of %s' % (rv['op'], [a0, a1]), bi
+            elif k == 'un' and rv['op'] == 'Not':
+                x = operand(rv['ops'][0])
+                if x[0] == 'int': val = ('int', 0 if x[1] else 1)
+            elif k == 'cast':
+                x = operand(rv['ops'][0])
+                if x[0] == 'int': val = x
+            if st['dst']['p']: continue           # partial writes are not tracked
+            env[st['dst']['l']] = val
+        t = blk['term']; tk = t['k']
+        if tk in ('goto', 'drop', 'assert'): bi = t['t']; continue
+        if tk == 'return': return 'bad', 'returns without applying the operator to the two payloads', bi
+        if tk == 'switch':
+            d = operand(t['d'])
+            if d[0] != 'int': return None, 'a branch on a value the walk does not track', bi
+            m = {v: tg for v, tg in t['ts']}
+            bi = m.get(d[1], t['else']); continue
+        if tk == 'call':
+            name = t['r'] or t['f']
+            args = [operand(a) for a in t['args']]
+            kind = ops_kind((t.get('ri') or {}).get('trait') or '')
+            if kind and (t.get('ri') or {}).get('item') in ('add', 'sub', 'mul', 'neg') and any(a[0] == 'payload' for a in args):
+                sides = {a[1] for a in args if a[0] == 'payload'}
+                if kind == op and len(args) == 2 and all(a[0] == 'payload' for a in args) and sides == {0, 1}: return 'ok', '', bi
+                return 'bad', 'the arm applies %s to %s' % (kind, args), bi
+            if t['t'] < 0: return 'bad', 'panics (%s)' % name.split('::')[-1][:40], bi
+            val = UNK
+            if args and PASS_THROUGH.search(T.strip_generics_tail(name)):
+                val = ('enum', args[0][1]) if args[0][0] == 'optenum' and re.search(r'::(expect|unwrap\w*|take)$', T.strip_generics_tail(name)) else args[0]
+            if not t['dst']['p']: env[t['dst']['l']] = val
+            bi = t['t']; continue
+        return None, 'unexpected terminator %s' % tk, bi
+    return None, 'walk did not terminate', bi
+
+
 def dispatch_rules(ctx):
+    """Function (+|*) Function: for EVERY ordered pair of kinds the arm that is actually taken applies the operator to the
+    payload of self and the payload of rhs (dispatch_walk), and its result is returned.  Instances are keyed by the pair of
+    kinds, not by source position."""
     R = 'C02.dispatch'
     en = ctx.F.adt('v1::function::Function')
     variants = [v['name'] for v in en['variants']] if en else []
+    discr_of = {v['name']: v.get('discr', k) for k, v in enumerate(en['variants'])} if en else {}
     for op in ('Add', 'Mul'):
         b = ctx.F.one('v1::Function', op.lower(), trait=op, targs=['v1::Function'])
         if b is None:
@@ -1074,28 +1194,39 @@ def dispatch_rules(ctx):
         calls = [c for c in b.calls if is_ops_call(c)]
         wrong = [c for c in calls if not c.trait.endswith('ops::' + op)]
         ctx.check(not wrong, R + '/%s/same-operation' % op, 'T-CARRY', b.name, 'an arm of %s uses another operator: %s' % (op, [c.name[:50] for c in wrong]), b.site())
-        covered = set()
         rs = ctx.S.backslice(b, [0])
+        cm = callmap(b)
+        # the static view (which payloads each operator call may combine), used where the walk cannot decide
+        covered = set()
         for c in calls:
             if not c.trait.endswith('ops::' + op): continue
             s0 = payload_sources(ctx, b, c.args[0]); s1 = payload_sources(ctx, b, c.args[1])
-            pairs = {tuple(sorted([x, y])) for x in s0 for y in s1 if x[0] != y[0]}
-            ctx.check(bool(pairs), R + '/%s/uses-both-payloads@%s' % (op, b.site(c.bb)), 'T-CARRY', b.name, 'operator call does not combine the lhs payload with the rhs payload (%s, %s)' % (sorted(s0), sorted(s1)), b.site(c.bb))
-            for p in pairs:
-                covered.add((p[0][1], p[1][1]))       # (variant of side 0, variant of side 1)
-            # result wrapped and returned
-            ctx.check(c in rs.call_objs, R + '/%s/result-returned@%s' % (op, b.site(c.bb)), 'T-CARRY', b.name, 'result of the arm is not returned', b.site(c.bb))
-        # f64 payloads are combined by the built-in operator
+            for x in s0:
+                for y in s1:
+                    if x[0] != y[0]:
+                        p = tuple(sorted([x, y])); covered.add((p[0][1], p[1][1]))
         for bi, st in b.stmts():
-            if st['rv']['k'] == 'bin' and st['rv'].get('ty') == 'f64':
+            if st['rv']['k'] == 'bin' and st['rv'].get('ty') == 'f64' and st['rv']['op'] == op:
                 s0 = payload_sources(ctx, b, st['rv']['ops'][0]); s1 = payload_sources(ctx, b, st['rv']['ops'][1])
-                pairs = {tuple(sorted([x, y])) for x in s0 for y in s1 if x[0] != y[0]}
-                if pairs:
-                    ctx.check(st['rv']['op'] == op, R + '/%s/same-operation-f64' % op, 'T-CARRY', b.name, 'the constant arm of %s computes %s' % (op, st['rv']['op']), b.site(bi))
-                    for p in pairs: covered.add((p[0][1], p[1][1]))
-        want = {(x, y) for x in variants for y in variants}
-        ctx.check(covered == want, R + '/%s/all-variant-pairs' % op, 'T-BRANCHFX', b.name, 'variant pairs without an arm: %s' % sorted(want - covered)[:6], b.site(), pairs=len(covered))
-    ctx.floor(R, 24)
+                for x in s0:
+                    for y in s1:
+                        if x[0] != y[0]:
+                            p = tuple(sorted([x, y])); covered.add((p[0][1], p[1][1]))
+        for vs in variants:
+            for vr in variants:
+                rid = '%s/%s/%s_%s' % (R, op, vs, vr)
+                verdict, why, bb = dispatch_walk(b, op, vs, vr, discr_of)
+                if verdict == 'ok':
+                    c = cm.get(bb)
+                    returned = (c in rs.call_objs) if c is not None and is_ops_call(c) else any(st['dst']['l'] in rs.locals for st in b.blocks[bb]['st'] if 'dst' in st and st['rv']['k'] == 'bin')
+                    ctx.check(returned, rid, 'T-BRANCHFX', b.name, 'the result of the arm taken for (%s, %s) is not returned' % (vs, vr), b.site(bb))
+                elif verdict == 'bad':
+                    ctx.bad(rid, 'T-BRANCHFX', b.name, 'for self = %s, rhs = %s: %s' % (vs, vr, why), b.site(bb))
+                elif (vs, vr) in covered:
+                    weakly(ctx, rid, 'T-BRANCHFX', b, 'the arm taken could not be followed (%s); an operator call combining a %s payload of self with a %s payload of rhs exists' % (why, vs, vr))
+                else:
+                    ctx.bad(rid, 'T-BRANCHFX', b.name, 'no arm found that combines a %s payload of self with a %s payload of rhs (%s)' % (vs, vr, why), b.site())
+    ctx.floor(R, 34)
 
 
 # =============================================================================== C02.branches
@@ -1743,7 +1874,7 @@ def exact_zero_targets(b):
                 if g.true_bb is not None: out.add(g.true_bb)
     for bi, st in float_cmp_sites(b, ('Eq', 'Ne', 'Lt', 'Le', 'Gt', 'Ge')):
         rv = st['rv']
-        cs = [T.f64_const(o['v']) for o in rv['ops'] if o['k'] == 'const']
+        cs = [fval(b, o['v']) for o in rv['ops'] if o['k'] == 'const']
         exact = rv['op'] in ('Eq', 'Ne') and cs == [0.0] and any(o['k'] != 'const' and is_rhs(o) for o in rv['ops'])
         for g in T.guards_from_local(b, st['dst']['l'], bi):
             if exact:
@@ -1936,7 +2067,7 @@ def sum_rules(ctx):
             st = norm_ty(c.self_ty or '')
             if (c.trait or '').endswith('convert::From') and c.item == 'from' and st == norm_ty(selfty):
                 src = (c.hdr.get('targs') or ['?'])[0]
-                val = T.f64_const(c.args[0]['v']) if c.args and c.args[0]['k'] == 'const' else None
+                val = fval(b, c.args[0]['v']) if c.args and c.args[0]['k'] == 'const' else None
                 (good if (src == 'f64' and val == ident) else bad).append('From<%s>(%s)' % (src, c.args[0].get('v') if c.args and c.args[0]['k'] == 'const' else '?'))
             elif st == norm_ty(selfty) and c.item in ('zero', 'one', 'default', 'new', 'single_term'):
                 ok = (c.item == 'zero' and kind == 'Sum') or (c.item == 'one' and kind == 'Product') or (c.item == 'default' and kind == 'Sum')
